@@ -550,7 +550,9 @@ def simplifications(lines):
         t = line.split()
         for j in range(1, len(t)):
             alts = []
-            if re.fullmatch(r'\d+', t[j]) and not (t[0] == "term" and j == 1):
+            if t[0] == "term" and j == 1:
+                continue        # the number of operators fixes the layout of the line
+            if re.fullmatch(r'\d+', t[j]):
                 v = int(t[j])
                 lo = 1 if t[0] == "site" else 0
                 alts = [str(x) for x in range(lo, v)]
@@ -688,6 +690,14 @@ def run(chk):
     chk.extra["exact_match_by_variant"] = dict(("fix_getsite=%d,fix_shapecheck=%d" % c, match[c]) for c in sorted(match))
     chk.extra["implementation_is_variant"] = ["fix_getsite=%d,fix_shapecheck=%d" % c for c in exact] or "none"
     chk.extra["outcome_distribution"] = outcome_hist
+    dist = {}
+    for hid, tg in tags.items():
+        d = dist.setdefault(stream_of(hid), {})
+        for x in tg:
+            k = x.split(":", 1)[1] if ":" in x else "look-up"
+            k = "valid" if k in ("valid", "new", "re-add-same-or-larger", "known") else k
+            d[k] = d.get(k, 0) + 1
+    chk.extra["generated_call_kinds"] = dist
     chk.extra["translator_fragment"] = (chk.extra.get("translator") or {}).get("Gen_LatticePresets")
 
     # ---- judged failures of the implementation ----
@@ -696,8 +706,10 @@ def run(chk):
     reported = {}      # flag -> (hid, failure)
     explained_count = {"getsite": 0, "shapecheck": 0}
     also = {"getsite": [], "shapecheck": []}
-    unexplained = {}   # (clause, kind) -> (hid, failure)
+    unexplained = {}   # clause -> (hid, failure): shortest failing prefix; one clause (the first) per failing call
+    unexplained_kinds = {}
     for hid, lines in hists:
+        seen_calls = set()
         for f in fi.get(hid, []):
             flag = None
             for fl in ("getsite", "shapecheck"):
@@ -710,8 +722,15 @@ def run(chk):
                 elif hid.startswith("corpus-") and hid != reported.get(flag, (None,))[0] and hid not in also[flag]:
                     also[flag].append(hid)
             else:
-                key = (f[1], f[2])
-                if key not in unexplained or len(lines) < len(lines_of[unexplained[key][0]]):
+                if f[0] in seen_calls:
+                    continue
+                seen_calls.add(f[0])
+                key = f[1]
+                unexplained_kinds.setdefault(key, {}).setdefault(f[2], 0)
+                unexplained_kinds[key][f[2]] += 1
+                have = unexplained.get(key)
+                # prefer the first corpus history (stable keys), then the shortest failing prefix
+                if have is None or (not have[0].startswith("corpus-") and (hid.startswith("corpus-") or f[0] < have[1][0])):
                     unexplained[key] = (hid, f)
     # failures explained by a flag that has no failing corpus witness (should not happen): treat as unexplained
     for flag in ("getsite", "shapecheck"):
@@ -719,7 +738,8 @@ def run(chk):
             for hid, lines in hists:
                 for f in fi.get(hid, []):
                     if f in fm[flag].get(hid, []):
-                        unexplained.setdefault((f[1], f[2]), (hid, f))
+                        unexplained.setdefault(f[1], (hid, f))
+                        unexplained_kinds.setdefault(f[1], {}).setdefault(f[2], 0)
     for flag, (hid, f) in sorted(reported.items()):
         lines = lines_of[hid][:f[0] + 1]
         key = "%s => %s" % ("; ".join(lines), CLAUSE[f[1]])
@@ -734,12 +754,13 @@ def run(chk):
                "theorems": THEOREM[flag], "other_failing_corpus_witnesses": also[flag], "failures_explained_in_this_run": explained_count[flag]}
         rep.update(explain(tools, lines))
         chk.violation(key, what, rep)
-    for (clause, kind), (hid, f) in sorted(unexplained.items()):
+    for clause, (hid, f) in sorted(unexplained.items(), key=lambda kv: ORDER.index(kv[0])):
+        kind = f[2]
         lines = lines_of[hid][:f[0] + 1] if clause not in ("K2",) else lines_of[hid]
         small = shrink(tools, lines, clause, kind)
         key = "%s => %s" % ("; ".join(small), CLAUSE[clause])
         rep = {"harness": "h_c20", "history": small, "clause": CLAUSE[clause], "found_in": hid, "original_length": len(lines_of[hid]),
-               "explained_by_missing_repair": None}
+               "explained_by_missing_repair": None, "failing_calls_by_kind_in_this_run": unexplained_kinds.get(clause)}
         rep.update(explain(tools, small))
         chk.violation(key, "call `%s` after `%s`: %s (not explained by a modelled defect; the repaired model, for which the property is "
                       "proved, behaves differently)" % (small[-1] if small else "?", "; ".join(small[:-1]) or "(empty lattice)", CLAUSE[clause]), rep)
@@ -747,7 +768,7 @@ def run(chk):
     nfail = sum(len(v) for v in fi.values())
     chk.extra["judged_failures"] = {"total": nfail, "explained_by_getsite": explained_count["getsite"],
                                     "explained_by_shapecheck": explained_count["shapecheck"],
-                                    "unexplained_groups": ["%s/%s" % k for k in sorted(unexplained)]}
+                                    "unexplained_by_clause": dict((CLAUSE[k], v) for k, v in unexplained_kinds.items())}
     if not exact:
         # the code is none of the modelled variants
         first = None
@@ -756,6 +777,9 @@ def run(chk):
                 first = hid
                 break
         chk.extra["model_mismatch_first_history"] = {"history": first, "lines": lines_of.get(first)}
+        anon = lambda bl: [[re.sub(r'^@ (exWrongLabel|exWrongIndices)$', '@ exception', l) for l in b] for b in (bl or [])]
+        only_class = [c for c in models if all(anon(models[c].get(hid)) == anon(bi.get(hid)) for hid, _ in hists)]
+        chk.extra["differs_only_in_exception_class_from"] = ["fix_getsite=%d,fix_shapecheck=%d" % c for c in only_class]
         if nfail == 0 or not (unexplained or reported):
             chk.level = "testing"
             chk.notes.append("the library differs from every model variant (first: %s) but passes every clause of the property on all "
@@ -818,7 +842,14 @@ def replay(chk, path):
         print("no clause fails on this tree")
     chk.case("replay " + "; ".join(lines), "replay", nontrivial=True)
     chk.rule = "replay of one stored history"
-    return chk.finish()
+    # a replay judges one history; keep the evidence of the last complete run
+    import os
+    evp = os.path.join(pv.ROOT if pv.COQ == pv.COQ_SRC else pv.BUILD, "evidence", "C20.json")
+    old = open(evp).read() if os.path.exists(evp) else None
+    rc = chk.finish()
+    if old is not None:
+        open(evp, "w").write(old)
+    return rc
 
 
 def setup():
